@@ -540,11 +540,33 @@ impl<'a> Lexer<'a> {
     }
 
     pub fn next_token(&mut self) -> Token<'a> {
-        self.skip_whitespace();
-        self.token_start = self.pos;
+        // Comments are skipped in this loop. (Returning `self.next_token()` after each comment
+        // used one stack frame per consecutive comment and overflowed the stack on long runs.)
+        loop {
+            self.skip_whitespace();
+            self.token_start = self.pos;
 
-        if self.is_eof() {
-            return Token::Eof;
+            if self.is_eof() {
+                return Token::Eof;
+            }
+
+            if self.current() == b'-' && self.peek_char() == Some(b'-') {
+                while !self.is_eof() && self.current() != b'\n' {
+                    self.advance();
+                }
+                continue;
+            }
+
+            if self.current() == b'/' && self.peek_char() == Some(b'*') {
+                self.advance();
+                self.advance();
+                if !self.skip_block_comment() {
+                    return Token::Error("unterminated block comment");
+                }
+                continue;
+            }
+
+            break;
         }
 
         let ch = self.current();
@@ -1077,12 +1099,6 @@ impl<'a> Lexer<'a> {
         }
 
         match self.current() {
-            b'-' => {
-                while !self.is_eof() && self.current() != b'\n' {
-                    self.advance();
-                }
-                self.next_token()
-            }
             b'>' => {
                 self.advance();
                 if !self.is_eof() && self.current() == b'>' {
@@ -1098,20 +1114,12 @@ impl<'a> Lexer<'a> {
 
     fn scan_slash(&mut self) -> Token<'a> {
         self.advance();
-
-        if self.is_eof() {
-            return Token::Slash;
-        }
-
-        if self.current() == b'*' {
-            self.advance();
-            self.scan_block_comment()
-        } else {
-            Token::Slash
-        }
+        Token::Slash
     }
 
-    fn scan_block_comment(&mut self) -> Token<'a> {
+    /// Skips a (nested) block comment whose opening `/*` has been consumed.
+    /// Returns false if the input ends inside the comment.
+    fn skip_block_comment(&mut self) -> bool {
         let mut depth = 1;
 
         while !self.is_eof() && depth > 0 {
@@ -1128,11 +1136,7 @@ impl<'a> Lexer<'a> {
             }
         }
 
-        if depth > 0 {
-            return Token::Error("unterminated block comment");
-        }
-
-        self.next_token()
+        depth == 0
     }
 
     fn scan_ampersand(&mut self) -> Token<'a> {
